@@ -800,11 +800,12 @@ static Oct sig_roundtrip(Rng &r, const SigArgs &a, const Oct &hashed, int outer_
 	if (ok) {
 		if (a.fn.find("revoker") == 0) { if ((int)d.ctx.type != 0x1F) why = "type"; } else if (a.fn.find("timestamp") == 0) { if ((int)d.ctx.type != 0x40) why = "type"; } else if (a.fn == "attestation") { if ((int)d.ctx.type != 0x16) why = "type"; } else if ((int)d.ctx.type != a.type) why = "type";
 		Oct kid; if (a.issuer.size() == 20) kid = Oct(a.issuer.begin() + 12, a.issuer.end()); else if (a.issuer.size() == 8) kid = a.issuer;
-		if (kid.size() == 8 && memcmp(d.ctx.issuer, kid.data(), 8)) why = "issuer";
+		if (kid.size() == 8 && version == 4 && memcmp(d.ctx.issuer, kid.data(), 8)) why = "issuer";
 		if ((a.issuer.size() == 20 || a.issuer.size() == 32) && a.fn.find("detached") == 0 && (d.ctx.issuerkeyversion != (a.issuer.size() == 20 ? 4 : 5) || memcmp(d.ctx.issuerfingerprint, a.issuer.data(), a.issuer.size()))) why = "issuer fingerprint";
 		if (a.fn.find("self") == 0 && (d.ctx.keyexpirationtime != (uint32_t)a.exptime || !bufeq(d.ctx.keyflags, d.ctx.keyflagslen, a.flags))) why = "key expiration / flags";
 		if ((a.fn.find("detached") == 0 || a.fn.find("certification") == 0) && d.ctx.sigexpirationtime != (uint32_t)a.exptime) why = "signature expiration";
-		if (!a.policy.empty() && a.policy.size() < 2048 && cstr(d.ctx.policyuri, sizeof d.ctx.policyuri) != a.policy) why = "policy";
+		bool takes_policy = a.fn.find("detached") == 0 || a.fn.find("certification") == 0 || a.fn.find("timestamp") == 0 || a.fn == "attestation";
+		if (takes_policy && !a.policy.empty() && a.policy.size() < 2048 && cstr(d.ctx.policyuri, sizeof d.ctx.policyuri) != a.policy) why = "policy";
 		if (a.fn.find("revocation") == 0 && ((int)d.ctx.revocationcode != a.revcode || (a.reason.size() < 2048 && cstr(d.ctx.revocationreason, sizeof d.ctx.revocationreason) != a.reason))) why = "revocation reason";
 		if (a.fn.find("revoker") == 0 && a.revoker.size() == 20 && (!(d.ctx.revocationkey_class & 0x80) || (int)d.ctx.revocationkey_pkalgo != a.pkalgo2 || memcmp(d.ctx.revocationkey_fingerprint, a.revoker.data(), 20))) why = "revocation key";
 		if (a.fn == "timestamp-target" && ((int)d.ctx.signaturetarget_pkalgo != a.target_pk || (int)d.ctx.signaturetarget_hashalgo != a.target_h || memcmp(d.ctx.signaturetarget_hash, a.target_hash.data(), a.target_hash.size()))) why = "signature target";
@@ -813,7 +814,7 @@ static Oct sig_roundtrip(Rng &r, const SigArgs &a, const Oct &hashed, int outer_
 		if (d.notations.size() != a.notations.size()) why = "notations"; else for (size_t i = 0; i < a.notations.size(); i++) if (d.notations[i] != a.notations[i]) why = "notations";
 	}
 	if (!ok) V("roundtrip/signature-packet", "PacketDecode does not recover an emitted signature packet", w);
-	else if (!why.empty()) V("roundtrip/signature-subpackets", "decoded signature subpacket fields differ from the prepared ones: " + why, w.kv("field", why));
+	else if (!why.empty()) { std::string slug = why; for (auto &c : slug) if (c == ' ' || c == '/') c = '-'; V("roundtrip/signature-subpacket-" + slug, "decoded signature subpacket fields differ from the prepared ones: " + why, w.kv("field", why)); }
 	gcry_mpi_release(rr); gcry_mpi_release(ss);
 	return pkt;
 }
